@@ -15,8 +15,8 @@ CHECKS = {
  "C10": ("SIM-SYS", "seeded search over fault plans attached to statements (sink write/flush throws, fwrite ENOSPC on a real FileSink, run-time format mismatch, user formatter throwing std / non-std types, LOG_BACKTRACE without init) x schedules; neighbours-intact exactly-once oracle per sink, file content oracle, notifier count, backend liveness in the fair phase; sampling, not proof", SIMSYS_NOTE, TECH),
  "C11": ("SIM-SYS", "seeded search over the typed call-site pool restricted to the property's listed types x schedules (whether a record fits depends on backend draining): interposed malloc-family / mmap calls counted per simulated thread between entry to and return from each real LOG_INFO call (0 required unless first call of the thread or the queue capacity changed); user formatters record the simulated thread they run on (deferred: backend, direct: caller); sampling, not proof", SIMSYS_NOTE + "; plain flavour only (ASan owns malloc)", TECH),
  "C16": ("SIM-SYS", "seeded search over level / threshold / filter configurations x schedules: statements at every static level and dynamic levels through the real LOG_* macros (argument side-effect counter) and log_statement, logger levels changing concurrently, sink thresholds / filters changing at quiescent barriers, override patterns, transit buffers of capacity 1-4 so slots are reused by statements of different kinds; per-sink acceptance model + line/level/named-argument attribution; sampling, not proof", SIMSYS_NOTE, TECH),
- "C17": ("SIM-SYS", "seeded search over create / lookup / remove (asynchronous and blocking) / re-create histories with sinks shared in random patterns, removal while statements are still queued, backend stalls around the removal, x schedules; exactly-once delivery, registry model (lookup idempotent, blocking removal complete on return, new sinks after re-creation), sink destruction iff unreferenced, blocking-removal liveness in the fair phase; ASan flavour in the thorough tier for premature frees; sampling, not proof", SIMSYS_NOTE + "; API contract respected by construction (barriers before removal, no same-name re-creation after asynchronous removal)", TECH),
- "C18": ("SIM-SYS", "seeded search over store/flush/re-init histories (capacity 1-8, 0..3*capacity+3 stores per cycle, explicit and flush-level triggered flushes, several cycles incl. after a wrapped flush) x schedules; sink sequence compared with an executable reference ring model; sampling, not proof", SIMSYS_NOTE + "; one writer thread per backtrace logger, re-initialisation only with an empty ring", TECH),
+ "C17": ("SIM-SYS", "seeded search over create / lookup / remove (asynchronous and blocking) / re-create histories with sinks shared in random patterns, removal while statements are still queued, backend stalls around the removal, scoped CsvWriter cycles over a small pool of file names, x schedules; exactly-once delivery, registry model (lookup idempotent, blocking removal complete on return, new sinks after re-creation), sink destruction iff unreferenced, blocking-removal liveness in the fair phase; ASan flavour in the thorough tier for premature frees; sampling, not proof", SIMSYS_NOTE + "; API contract respected by construction (barriers before removal, no same-name re-creation after asynchronous removal)", TECH),
+ "C18": ("SIM-SYS", "seeded search over store/flush/re-init histories (capacity 1-8, 0..3*capacity+3 stores per cycle, explicit and flush-level triggered flushes, several cycles incl. after a wrapped flush; 1 run in 4: 2-3 threads storing into one ring concurrently, flush after they are joined) x schedules; sink sequence compared with an executable reference ring model (multi-writer: count, per-thread most-recent suffix, attribution); a sink throwing during a replay as fault variant; sampling, not proof", SIMSYS_NOTE + "; exact model with one writer thread per backtrace logger, re-initialisation only with an empty ring", TECH),
  "C20": ("SIM-SYS", "seeded search over thread start/exit histories (waves of 1-512 real short-lived threads, sizes biased to k*256+-1, backend stalled or busy during the wave), shrink requests after growth; context count through the public ThreadContextManager API at a quiescent point in the fair phase + exactly-once delivery oracle; sampling, not proof", SIMSYS_NOTE, TECH),
  "C04": ("SIM-SYS", "seeded search over a compiled pool of 47 typed call sites (value space sampled by a seeded generator) x schedules that decide whether the backend decodes before or after the caller overwrote and destroyed its arguments, at which ring offset the record lies and whether the queue grows at this record; expected text = fmtquill::format at the call site + sanitisation; quill's own size-accounting asserts enabled, every following statement of the thread must still decode; sampling, not proof", SIMSYS_NOTE + "; the value space part is ordinary seeded generation — the simulator contributes the timing of decode vs mutation and record placement", TECH),
  "C05": ("SIM-SYS", "seeded search over schedules with a virtual clock (System and TSC), stalls between a thread's clock read and its commit, backend stalls at the clock read of a pass next to first-time threads, small soft/hard limits; running-maximum timestamp oracle over all write_log calls with a conservative lateness excuse; sampling, not proof", SIMSYS_NOTE + "; TSC runs tolerate inversions below RdtscClock's 3.4 us resync window", TECH),
